@@ -327,6 +327,7 @@ func checkC07(r *Run) propMeta {
 	checkEmitterPackageState(r, "C07-R9-emitter-stateless")
 	checkNameCodecSymmetry(r)
 	checkParsedNumbersUnconverted(r)
+	checkIdentifierClasses(r, g)
 	r.Floor("C07-R6-bare-key-keywords", 1)
 	r.Floor("C07-R1-pair", 150)
 	r.Floor("C07-R1-info-terminal", 10)
